@@ -157,6 +157,18 @@ func (e *SpecEnv) ident(x *ast.Ident) Val {
 	if v, ok := e.binds[x.Name]; ok {
 		return v
 	}
+	// <param>0 names the entry value of a parameter (parameters are mutable in Go;
+	// inside a loop the plain name is the current value)
+	if n := len(x.Name); n > 1 && x.Name[n-1] == '0' {
+		if e.fn == vc.fn {
+			if v, ok := vc.params[x.Name[:n-1]]; ok {
+				return v
+			}
+		} else if v, ok := e.binds[x.Name[:n-1]]; ok {
+			// a callee's contract at a call site: the actual argument
+			return v
+		}
+	}
 	switch x.Name {
 	case "true":
 		return Val{T: "true", Ty: types.Typ[types.Bool]}
@@ -401,10 +413,10 @@ func (e *SpecEnv) index(x *ast.IndexExpr) Val {
 
 func (e *SpecEnv) coerceNil(a, b Val) (Val, Val) {
 	fix := func(n Val, other Val) Val {
-		if n.T != "nil" {
+		if n.T != "nil" || (n.Ty != nil && n.Ty != types.Typ[types.UntypedNil]) {
 			return n
 		}
-		if other.Ty == nil {
+		if other.Ty == nil || other.Ty == types.Typ[types.UntypedNil] {
 			return Val{T: "nil", Ty: n.Ty}
 		}
 		return Val{T: e.vc.zeroOf(other.Ty), Ty: other.Ty}
@@ -433,6 +445,7 @@ func (e *SpecEnv) binary(x *ast.BinaryExpr) Val {
 		var t Term
 		if ty != nil && isFloat(ty) {
 			vc.decl("fun:f64_eq", "(declare-fun f64_eq (F64 F64) Bool)")
+			vc.f64pair(a.T, b.T)
 			t = "(f64_eq " + a.T + " " + b.T + ")"
 		} else {
 			t = smtEq(a.T, b.T)
@@ -445,6 +458,7 @@ func (e *SpecEnv) binary(x *ast.BinaryExpr) Val {
 		if ty != nil && isFloat(ty) {
 			vc.decl("fun:f64_lt", "(declare-fun f64_lt (F64 F64) Bool)")
 			vc.decl("fun:f64_le", "(declare-fun f64_le (F64 F64) Bool)")
+			vc.f64pair(a.T, b.T)
 			switch x.Op {
 			case token.LSS:
 				return Val{T: "(f64_lt " + a.T + " " + b.T + ")", Ty: boolT}
@@ -625,6 +639,33 @@ func (e *SpecEnv) call(x *ast.CallExpr) Val {
 				cs = append(cs, smtEq(n.T, o.T))
 			}
 			return Val{T: smtAnd(cs...), Ty: boolT}
+		case "haskey", "mapput", "mapdel", "mapsame":
+			// Go maps: haskey(m, k); mapput(m, k, v): m's contents are the old contents
+			// with k bound to v; mapdel(m, k); mapsame(m): contents unchanged
+			m := e.eval(x.Args[0])
+			mt, ok := m.Ty.Underlying().(*types.Map)
+			if !ok {
+				return e.fail("%s: not a map", id.Name)
+			}
+			vv, hv := vc.mapVars(m.Ty)
+			curV, curH := "(select "+vc.get(e.cur, vv)+" "+m.T+")", "(select "+vc.get(e.cur, hv)+" "+m.T+")"
+			oldV, oldH := "(select "+vc.get(e.old, vv)+" "+m.T+")", "(select "+vc.get(e.old, hv)+" "+m.T+")"
+			switch id.Name {
+			case "haskey":
+				k := e.materialize(e.eval(x.Args[1]))
+				return Val{T: "(and (not (= " + m.T + " nil)) (select " + curH + " " + k.T + "))", Ty: boolT}
+			case "mapsame":
+				return Val{T: smtAnd(smtEq(curV, oldV), smtEq(curH, oldH)), Ty: boolT}
+			case "mapput":
+				k, v := e.materialize(e.eval(x.Args[1])), e.materialize(e.eval(x.Args[2]))
+				if v.T == "nil" {
+					v.T = vc.zeroOf(mt.Elem())
+				}
+				return Val{T: smtAnd(smtEq(curV, "(store "+oldV+" "+k.T+" "+v.T+")"), smtEq(curH, "(store "+oldH+" "+k.T+" true)")), Ty: boolT}
+			default:
+				k := e.materialize(e.eval(x.Args[1]))
+				return Val{T: smtEq(curH, "(store "+oldH+" "+k.T+" false)"), Ty: boolT}
+			}
 		case "typeis":
 			v := e.eval(x.Args[0])
 			t := e.typeExpr(x.Args[1])
@@ -686,6 +727,10 @@ func (e *SpecEnv) call(x *ast.CallExpr) Val {
 			}
 			vc.decl("fun:str_lt", "(declare-fun str_lt (Str Str) Bool)")
 			return Val{T: "(str_lt " + a.T + " " + b.T + ")", Ty: boolT}
+		case "isnan":
+			v := e.eval(x.Args[0])
+			vc.decl("fun:f64_isnan", "(declare-fun f64_isnan (F64) Bool)")
+			return Val{T: "(f64_isnan " + v.T + ")", Ty: boolT}
 		case "strlen":
 			v := e.eval(x.Args[0])
 			return Val{T: vc.slenOf(v.T), Ty: types.Typ[types.Int]}
@@ -721,6 +766,13 @@ func (e *SpecEnv) call(x *ast.CallExpr) Val {
 			if best != nil {
 				return vc.topFrame.val(best)
 			}
+			// a variable that lives in a cell (captured by a closure, or address
+			// taken): local("x") is its address, *local("x") its current value
+			for v := range vc.topFrame.vals {
+				if a, ok := v.(*ssa.Alloc); ok && a.Comment == name && a.Parent() == vc.fn {
+					return vc.topFrame.val(a)
+				}
+			}
 			return e.fail("local(%q): no such variable at this point (contract target changed)", name)
 		case "loopvar":
 			// loopvar(k): current value of the range index (first header phi) of loop k
@@ -745,6 +797,26 @@ func (e *SpecEnv) call(x *ast.CallExpr) Val {
 			return e.fail("loopvar(%d): no such loop (contract target changed)", k)
 		case "ext":
 			return e.extCall(x)
+		case "called":
+			// called("callee"): some call to callee was made on the path that reaches this point
+			lit, ok := x.Args[0].(*ast.BasicLit)
+			if !ok || len(x.Args) != 1 {
+				return e.fail("called(\"callee\")")
+			}
+			if e.fn != vc.fn {
+				return Val{T: vc.freshConst("specerr", "Bool"), Ty: types.Typ[types.Bool]}
+			}
+			cn, _ := strconv.Unquote(lit.Value)
+			var rs []Term
+			for _, en := range vc.retLog {
+				if calleeMatch(en.name, cn) && en.reach != "" {
+					rs = append(rs, en.reach)
+				}
+			}
+			if len(rs) == 0 {
+				return Val{T: "false", Ty: types.Typ[types.Bool]}
+			}
+			return Val{T: smtOr(rs...), Ty: types.Typ[types.Bool]}
 		case "ret":
 			// ret("callee", i): i-th result of the latest call to callee in this activation
 			lit, ok := x.Args[0].(*ast.BasicLit)
@@ -757,6 +829,12 @@ func (e *SpecEnv) call(x *ast.CallExpr) Val {
 				return e.fail("ret: index must be a literal")
 			}
 			idx, _ := strconv.Atoi(il.Value)
+			if e.fn != vc.fn {
+				// a callee's clause about calls made INSIDE the callee: it says
+				// nothing the caller can use (and must not be resolved against the
+				// caller's own calls); the clause is skipped at the call site
+				return Val{T: vc.freshConst("specerr", "Bool"), Ty: types.Typ[types.Bool]}
+			}
 			if r, ok := vc.lookupRet(cn); ok && idx < len(r) {
 				return r[idx]
 			}
@@ -777,13 +855,18 @@ func (e *SpecEnv) call(x *ast.CallExpr) Val {
 			for i, pn := range p.Params {
 				sub.binds[pn] = e.eval(x.Args[i])
 			}
+			// the body is written against the names of the pred's own package
+			if pk := e.pkg(); p.PkgPath != "" && (pk == nil || pk.Path() != p.PkgPath) {
+				sub.fn = nil
+				sub.pkgPath = p.PkgPath
+			}
 			return sub.eval(p.Expr)
 		}
 		// conversion?
 		if t := e.typeExpr(id); t != nil && len(x.Args) == 1 {
 			v := e.eval(x.Args[0])
 			if isFloat(t) && v.Ty != nil && (isInteger(v.Ty) || v.Ty == types.Typ[types.UntypedInt]) {
-				vc.decl("fun:i2f", "(declare-fun i2f (Int) F64)")
+				vc.declI2F()
 				return Val{T: "(i2f " + v.T + ")", Ty: t}
 			}
 			return Val{T: v.T, Ty: t}
